@@ -32,14 +32,17 @@ def run(ctx, replay=None):
     env = dict(os.environ, TSAN_OPTIONS='halt_on_error=0 exitcode=66 report_signal_unsafe=0')
     concrete = {}
     runs = 0
-    for kind in ['twotables', 'vector', 'list', 'tree', 'hash', 'listtbl']:
+    for kind in ['twotables', 'bounded', 'vector', 'list', 'tree', 'hash', 'listtbl']:
         for rep in range(3 if quick else 20):
             T, K = (3, 120) if rep % 2 == 0 else (4, 60)
             sd = ctx.seed * 100 + rep
             for which, e in (('plain', exe), ('tsan', exet)):
                 if which == 'tsan' and rep >= (2 if quick else 6):
                     continue
-                rc, o, er = ctx.run([e, kind, str(T), str(K), str(sd)], timeout=300, env=env)
+                args = [kind, str(T), str(K), str(sd)]
+                if kind == 'bounded':             # T threads, rounds, limit: one place free, all threads add at once
+                    args = [kind, '4', str(400 if quick else 3000), str(2 + rep % 3)]
+                rc, o, er = ctx.run([e] + args, timeout=300, env=env)
                 runs += 1
                 ctx.cov['evaluations'] += 1
                 ctx.count('%s:%s' % (which, kind))
